@@ -185,7 +185,8 @@ func runC01(c *fw.Ctx) {
 	}
 	e.Monitors = append(e.Monitors, rec)
 	w := defaultMix
-	w.LowGasPct, w.BadSeqPct, w.NestedPct, w.GovPct = 5, 4, 10, 4
+	w.LowGasPct, w.BadSeqPct, w.NestedPct, w.GovPct = 5, 4, 10, 7
+	e.GovRollbackPct = 40 // what a rolled-back execution leaves in process memory is gone after a restart
 	nb := c.Rng.Range(25, 40)
 	for b := 0; b < nb && e.Halted == ""; {
 		step := c.Rng.Range(2, 5)
@@ -240,6 +241,33 @@ func runC01(c *fw.Ctx) {
 		}
 		db.Close()
 		c.Distinct("replica/in-process-goleveldb-node-options")
+	}
+	// ---------------- R3: a replica restarted after EVERY commit (a new App on the same database for
+	// each block): whatever a node keeps in process memory across blocks - memoised parameters,
+	// owners, "queue non-empty" flags, values left behind by rolled-back executions - is gone at every
+	// height, so any influence of such memory on results shows at the first block where it matters,
+	// wherever the interesting restart point happens to be
+	{
+		o3 := o
+		o3.Home = c.Scratch + "/home3"
+		db3 := dbm.NewMemDB()
+		l3 := lab.New(db3, o3)
+		for i, b := range blocks {
+			br, _ := replayBlock(l3, b, -1)
+			c.Count("replica_blocks_compared", 1)
+			c.Count("every_block_restarts", 1)
+			if d := sameBlock(ref[i], br); d != "" {
+				c.Violate("restart-divergence", "restarted-after-every-block", "height %d: a node restarted from its database after every block differs from the node that never stopped: %s | txs of that block: %s", ref[i].Height, d, c01DescribeBlock(e, i))
+				break
+			}
+			app3 := lab.NewApp(db3, o3)
+			if app3.LastBlockHeight() != br.Height || !bytes.Equal(app3.LastCommitID().Hash, br.Hash) {
+				c.Violate("restart-height-or-hash", "restarted-after-every-block", "after height %d the reopened node is at height %d hash %X, expected hash %X", br.Height, app3.LastBlockHeight(), app3.LastCommitID().Hash, br.Hash)
+				break
+			}
+			l3 = lab.Attach(app3, db3, o3, app3.LastBlockHeight(), l3.Time)
+		}
+		c.Distinct("replica/restarted-after-every-block")
 	}
 	// ---------------- blocks file for child processes
 	bf := c.Scratch + "/blocks.json"
